@@ -199,36 +199,116 @@ pub fn structured_of(c: [i64; 4]) -> StructuredShortMessage {
 
 pub const OBS_LEN: usize = 26;
 
-/// Every method of trait ShortMessage on `m`, each call guarded on its own.
+/// The observation vector: every method of trait ShortMessage on `$m`, each call guarded on its own.
+/// A macro, so that the same calls can be made (a) through the trait on a generic `M`, (b) with method
+/// syntax on the concrete types (an inherent method shadowing a trait method would be picked up) and
+/// (c) on `&&M` receivers (a forwarding `impl ShortMessage for &T` would be picked up).
+macro_rules! obs_body {
+    ($acc:expr, $m:expr) => {{
+        let acc: &mut Acc = $acc;
+        let m = $m;
+        let mut v = [0i64; OBS_LEN];
+        v[0] = acc.g(|| u8::from(m.r#type()) as i64);
+        v[1] = acc.g(|| super_code(m.super_type()));
+        v[2] = acc.g(|| main_code(m.main_category()));
+        v[3] = acc.g(|| opt(m.channel().map(|x| x.get())));
+        v[4] = acc.g(|| opt(m.key_number().map(|x| x.get())));
+        v[5] = acc.g(|| opt(m.velocity().map(|x| x.get())));
+        v[6] = acc.g(|| opt(m.controller_number().map(|x| x.get())));
+        v[7] = acc.g(|| opt(m.control_value().map(|x| x.get())));
+        v[8] = acc.g(|| opt(m.program_number().map(|x| x.get())));
+        v[9] = acc.g(|| opt(m.pressure_amount().map(|x| x.get())));
+        v[10] = acc.g(|| opt(m.pitch_bend_value().map(|x| x.get())));
+        v[11] = acc.g(|| m.is_note() as i64);
+        v[12] = acc.g(|| m.is_note_on() as i64);
+        v[13] = acc.g(|| m.is_note_off() as i64);
+        v[14] = acc.g(|| m.status_byte() as i64);
+        v[15] = acc.g(|| m.data_byte_1().get() as i64);
+        v[16] = acc.g(|| m.data_byte_2().get() as i64);
+        let b = acc.gv(|| {
+            let b = m.to_bytes();
+            [b.0 as i64, b.1.get() as i64, b.2.get() as i64]
+        });
+        v[17..20].copy_from_slice(&b);
+        v[20] = acc.g(|| fuzzy_code(m.r#type().super_type()));
+        v[21] = acc.g(|| main_code(m.r#type().super_type().main_category()));
+        let s = acc.gv(|| structured_code(&m.to_structured()));
+        v[22..26].copy_from_slice(&s);
+        v
+    }};
+}
+
+/// (a) through the trait, on any implementor
 pub fn obs<M: ShortMessage>(acc: &mut Acc, m: &M) -> [i64; OBS_LEN] {
-    let mut v = [0i64; OBS_LEN];
-    v[0] = acc.g(|| u8::from(m.r#type()) as i64);
-    v[1] = acc.g(|| super_code(m.super_type()));
-    v[2] = acc.g(|| main_code(m.main_category()));
-    v[3] = acc.g(|| opt(m.channel().map(|x| x.get())));
-    v[4] = acc.g(|| opt(m.key_number().map(|x| x.get())));
-    v[5] = acc.g(|| opt(m.velocity().map(|x| x.get())));
-    v[6] = acc.g(|| opt(m.controller_number().map(|x| x.get())));
-    v[7] = acc.g(|| opt(m.control_value().map(|x| x.get())));
-    v[8] = acc.g(|| opt(m.program_number().map(|x| x.get())));
-    v[9] = acc.g(|| opt(m.pressure_amount().map(|x| x.get())));
-    v[10] = acc.g(|| opt(m.pitch_bend_value().map(|x| x.get())));
-    v[11] = acc.g(|| m.is_note() as i64);
-    v[12] = acc.g(|| m.is_note_on() as i64);
-    v[13] = acc.g(|| m.is_note_off() as i64);
-    v[14] = acc.g(|| m.status_byte() as i64);
-    v[15] = acc.g(|| m.data_byte_1().get() as i64);
-    v[16] = acc.g(|| m.data_byte_2().get() as i64);
-    let b = acc.gv(|| {
-        let b = m.to_bytes();
-        [b.0 as i64, b.1.get() as i64, b.2.get() as i64]
-    });
-    v[17..20].copy_from_slice(&b);
-    v[20] = acc.g(|| fuzzy_code(m.r#type().super_type()));
-    v[21] = acc.g(|| main_code(m.r#type().super_type().main_category()));
-    let s = acc.gv(|| structured_code(&m.to_structured()));
-    v[22..26].copy_from_slice(&s);
-    v
+    obs_body!(acc, m)
+}
+
+/// (b) method syntax on the concrete library types
+pub fn obs_raw_method(acc: &mut Acc, m: &RawShortMessage) -> [i64; OBS_LEN] {
+    let m: RawShortMessage = *m;
+    obs_body!(acc, m)
+}
+
+pub fn obs_structured_method(acc: &mut Acc, m: &StructuredShortMessage) -> [i64; OBS_LEN] {
+    let m: StructuredShortMessage = *m;
+    obs_body!(acc, m)
+}
+
+/// (c) `&&M` receivers
+pub fn obs_raw_refref(acc: &mut Acc, m: &RawShortMessage) -> [i64; OBS_LEN] {
+    let m: &&RawShortMessage = &m;
+    obs_body!(acc, m)
+}
+
+pub fn obs_structured_refref(acc: &mut Acc, m: &StructuredShortMessage) -> [i64; OBS_LEN] {
+    let m: &&StructuredShortMessage = &m;
+    obs_body!(acc, m)
+}
+
+/// A third-party implementor whose byte getters themselves use the trait's provided methods of the
+/// message they wrap (an adapter): legal, and re-entrant with respect to any provided method.
+#[derive(Copy, Clone, Debug, PartialEq, Eq)]
+pub struct Reentrant(pub RawShortMessage);
+
+impl ShortMessage for Reentrant {
+    fn status_byte(&self) -> u8 {
+        let _ = self.0.to_structured();
+        let _ = self.0.is_note_off();
+        self.0.status_byte()
+    }
+    fn data_byte_1(&self) -> U7 {
+        let _ = self.0.super_type();
+        let _ = self.0.channel();
+        self.0.data_byte_1()
+    }
+    fn data_byte_2(&self) -> U7 {
+        let _ = self.0.r#type();
+        let _ = self.0.is_note_on();
+        self.0.data_byte_2()
+    }
+}
+
+/// A third-party implementor AND factory that does not keep the bytes verbatim: it stores the
+/// structured form (so it reports the canonical bytes, like StructuredShortMessage itself).
+#[derive(Clone, Debug, PartialEq, Eq)]
+pub struct StructWrap(pub StructuredShortMessage);
+
+impl ShortMessage for StructWrap {
+    fn status_byte(&self) -> u8 {
+        self.0.status_byte()
+    }
+    fn data_byte_1(&self) -> U7 {
+        self.0.data_byte_1()
+    }
+    fn data_byte_2(&self) -> U7 {
+        self.0.data_byte_2()
+    }
+}
+
+impl ShortMessageFactory for StructWrap {
+    unsafe fn from_bytes_unchecked(bytes: (u8, U7, U7)) -> Self {
+        StructWrap(StructuredShortMessage::from_bytes_unchecked(bytes))
+    }
 }
 
 fn bytes3<M: ShortMessage>(m: &M) -> [i64; 3] {
@@ -248,8 +328,9 @@ pub fn short_row(s: u8, d1: u8, d2: u8) -> Vec<i64> {
     let ok_s = acc.g(|| StructuredShortMessage::from_bytes(t).is_ok() as i64);
     let ok_f = acc.g(|| Foreign::from_bytes(t).is_ok() as i64);
     let ok_t = acc.g(|| RawShortMessage::try_from(t).is_ok() as i64);
-    row.extend_from_slice(&[ok_r, ok_s, ok_f, ok_t]);
-    if ok_r != 1 || ok_s != 1 || ok_f != 1 || s < 128 {
+    let ok_w = acc.g(|| StructWrap::from_bytes(t).is_ok() as i64);
+    row.extend_from_slice(&[ok_r, ok_s, ok_f, ok_t, ok_w]);
+    if ok_r != 1 || ok_s != 1 || ok_f != 1 || ok_t != 1 || ok_w != 1 || s < 128 {
         row.push(acc.allocs as i64);
         return row;
     }
@@ -307,6 +388,39 @@ pub fn short_row(s: u8, d1: u8, d2: u8) -> Vec<i64> {
         let b: (u8, U7, U7) = raw.into();
         [b.0 as i64, b.1.get() as i64, b.2.get() as i64]
     });
+    // the tuple conversion as a constructor
+    let tryf = acc.gv(|| bytes3(&RawShortMessage::try_from(t).unwrap()));
+    // ---- other ways of reaching the same methods, other implementors, other histories
+    let mut flags2 = [0i64; 8];
+    flags2[0] = (obs_raw_refref(&mut acc, &raw) == vec_r && obs_structured_refref(&mut acc, &st) == vec_s) as i64;
+    flags2[1] = (obs_raw_method(&mut acc, &raw) == vec_r) as i64;
+    flags2[2] = (obs_structured_method(&mut acc, &st) == vec_s) as i64;
+    flags2[3] = (obs(&mut acc, &Reentrant(raw)) == vec_r) as i64;
+    let wrapped = guarded(|| StructWrap::from_bytes(t).unwrap()).0;
+    flags2[4] = match &wrapped {
+        Some(w) => (obs(&mut acc, w) == vec_s) as i64,
+        None => PANIC,
+    };
+    flags2[5] = match &wrapped {
+        Some(w) => flag(&mut acc, || w.0 == st && StructWrap::from_other(&raw) == *w && w.to_other::<RawShortMessage>() == st.to_other::<RawShortMessage>()),
+        None => PANIC,
+    };
+    // the same questions again after unrelated calls (decoys sharing the status byte / the data bytes):
+    // an answer that depends on what was asked before is not a function of the message
+    let decoy = |acc: &mut Acc, a: u8, b: u8, c: u8| {
+        if let Ok(m) = RawShortMessage::from_bytes((a, U7::new(b), U7::new(c))) {
+            let _ = obs(acc, &m);
+            let _ = guarded(|| obs(&mut Acc { allocs: 0 }, &m.to_structured()));
+        }
+    };
+    decoy(&mut acc, s, d1 ^ 0x7f, d2 ^ 0x55);
+    let again_r = obs(&mut acc, &raw);
+    decoy(&mut acc, s ^ 0x10, d1, d2);
+    let again_f = obs(&mut acc, &fo);
+    decoy(&mut acc, 0xf8, d2, d1);
+    let again_s = obs(&mut acc, &st);
+    flags2[6] = (again_r == vec_r && again_f == vec_r && again_s == vec_s) as i64;
+    flags2[7] = flag(&mut acc, || RawShortMessage::try_from(t) == RawShortMessage::from_bytes(t) && raw.clone() == raw);
     row.push(acc.allocs as i64);
     row.extend_from_slice(&vec_r);
     row.extend_from_slice(&vec_s);
@@ -314,6 +428,8 @@ pub fn short_row(s: u8, d1: u8, d2: u8) -> Vec<i64> {
     row.extend_from_slice(&back_raw);
     row.extend_from_slice(&rt2_bytes);
     row.extend_from_slice(&into);
+    row.extend_from_slice(&tryf);
+    row.extend_from_slice(&flags2);
     row
 }
 
